@@ -163,8 +163,9 @@ func UnixFSDirectory(lsys linking.LinkSystem, targetSize int, opts ...Option) (D
 				if err != nil {
 					return nil, err
 				}
-				children = append(children, child)
 				curSize += int(child.TSize)
+				// one generated child per name: the caller appends it
+				return &child, nil
 			default: // 4 in 6 chance of making a new file
 				var size int
 				for size == 0 { // don't make empty files
